@@ -2,8 +2,10 @@
 from __future__ import annotations
 
 import asyncio
+import contextlib
 import ipaddress
 import itertools
+import math
 import struct
 from unittest import mock
 from unittest.mock import MagicMock
@@ -31,10 +33,23 @@ from aiohomekit.zeroconf import HomeKitService
 ID = "C19"
 RULE = ("schedules over {waiter k starts with timeout t_k, advertisement for id x processed, waiter cancelled, clock advances} with 1..3 waiters and 1..2 ids, EXHAUSTIVE to depth 5 (quick) / 6 "
         "(thorough) on the mDNS controller, the BLE controller and the aggregate controller (virtual time), with no pairing / pairing with cached state / pairing without cached state loaded; "
-        "TXT/address/manufacturer-data contents: every truncation of valid ones, random fields, upper/lower-case keys and ids, malformed numbers. non-trivial = distinct (controller, schedule) / input")
-TRUSTED = ["zeroconf's AsyncServiceInfo accessors (duck-typed) and their IPv4-first ordering", "asyncio timers fire at their deadline under the virtual clock"]
+        "TXT/address/manufacturer-data contents: every truncation of valid ones, random fields, upper/lower-case keys and ids, malformed numbers; "
+        "HISTORIES with composite events on the IP, CoAP, BLE and aggregate controllers: 2-3 of {cancel waiter k, timeout of waiter k fires, advertisement for id x, new waiter} issued 0..4 event-loop "
+        "iterations apart (0 = back-to-back, also inside the very loop iteration of a timeout, right after / right before the timer callback), every ordered pair x every gap and sampled triples, plus "
+        "random ones, with the pairing-loaded dimension generalised: an IP / CoAP / BLE pairing loaded through the controller's own load_pairing before the first advertisement (no previous "
+        "description: the state after a restart), between waiter and advertisement, or after it; characteristic cache with c# below / equal / above the advertised one, with / without cached state "
+        "number and broadcast key, either id casing; later advertisements with the same / changed c#, s#, address, port, name, on the same or another transport; records as duck-typed stand-ins or "
+        "zeroconf's own AsyncServiceInfo, bleak's own BLEDevice/AdvertisementData - tie-free histories are also run through the waiter automaton, histories with a tie (caller cancels / timer fires "
+        "in the loop iterations before an outcome has reached the caller; the automaton cannot express that) are judged by the implementation-level oracle only (callback never raises, every "
+        "waiter pending when a valid advertisement for its id is processed is completed with that discovery, cancelled / timed-out ones keep their own outcome, the discovery is recorded with the "
+        "advertised numbers); RESTART scenarios through zeroconf's own record cache, browser handler and async_start (records cached before the start or announced later, cache hit / miss at the "
+        "end of the debounce, pairing loaded before / after the start, update with changed c# / s# / address / port). non-trivial = distinct (controller, schedule) / input / history")
+TRUSTED = ["zeroconf's AsyncServiceInfo accessors (duck-typed) and their IPv4-first ordering", "asyncio timers fire at their deadline under the virtual clock",
+           "histories / restart: the network and the radio refuse every connection attempt of a loaded pairing (aiohappyeyeballs.start_connection, aiocoap Context creation, bleak establish_connection are the mocked boundary)"]
 ASSUMPTIONS = ["one model event = one harness action followed by running the loop to quiescence at that virtual time",
-               "TXT numbers are plain decimal digit strings or non-numeric garbage (Python int()'s tolerance of sign/space/underscore is outside the model's domain)"]
+               "TXT numbers are plain decimal digit strings or non-numeric garbage (Python int()'s tolerance of sign/space/underscore is outside the model's domain)",
+               "histories: an outcome has reached the caller 10 loop iterations after it was decided; a cancel the caller issues inside that window, or the timeout timer firing in the very loop "
+               "iteration in which the advertisement was processed just before it, may replace the outcome (asyncio semantics) - for that waiter both outcomes are accepted, nothing else is relaxed"]
 EXPLANATION = "Lean theorems C19_* over the waiter automaton (woken, timeout, cancel, frame/order independence) and the two parsers; differential tie through IpController / BleController / Controller.async_find under virtual time"
 
 IDS = {7: "AA:BB:CC:DD:EE:07", 8: "aa:bb:cc:dd:ee:08"}
@@ -283,6 +298,10 @@ def run(ctx: Ctx, driver: Driver):
     parse_streams(ctx, driver, rng)
     callback_robustness(ctx, rng, loop)
     loop.close()
+    history_streams(ctx, driver, rng)
+    restart_streams(ctx, rng)
+    from harness.c19_micro import run_micro
+    run_micro(ctx, driver)
 
 
 # ---------------------------------------------------------------- the mDNS browser path (service state changes, 0.5 s resolve debounce)
@@ -429,6 +448,16 @@ def browser_streams(ctx, driver, rng, loop):
     compare_with_model(ctx, "browser", cases, outs, lines, driver)
 
 
+def ref_ble(data):
+    """the HAP-BLE regular advertisement, decoded independently: type 0x06, sub-type/length byte, status flags, 6-byte device id, category
+    (u16 LE), state number (u16 LE), configuration number, compatible version = 15 mandatory bytes, then an optional 4-byte setup hash.
+    None = malformed (wrong type / a mandatory field cut)"""
+    if len(data) < 15 or data[0] != 0x06:
+        return None
+    acid, gsn, cn, _cv = struct.unpack("<HHBB", data[9:15])
+    return f"{data[3:9].hex()} sf={data[2]} ci={acid} s={gsn} c={cn} sh={hx(data[15:19] if len(data) >= 19 else b'')}"
+
+
 def parse_streams(ctx, driver, rng):
     # ---- BLE manufacturer data: every truncation of valid ones + random mutations
     cases, outs, lines = [], [], []
@@ -460,6 +489,10 @@ def parse_streams(ctx, driver, rng):
         except Exception as e:  # noqa: BLE001
             ctx.violation("parse/ble/" + type(e).__name__, f"from_manufacturer_data raised {type(e).__name__} on {hx(data)}", case)
             continue
+        ref = ref_ble(data)
+        if out != (ref or "ignored"):
+            ctx.violation("parse/ble/" + ("valid-ignored" if out == "ignored" else "malformed-accepted" if ref is None else "wrong-fields"),
+                          f"from_manufacturer_data({hx(data)}) -> {out}; the advertisement says {ref or 'nothing usable (malformed)'}", case)
         cases.append(case)
         outs.append(out)
         lines.append(f"wt.ble {hx(data)}")
@@ -549,5 +582,828 @@ def callback_robustness(ctx, rng, loop):
     ctx.evaluations += loop.run_until_complete(go())
 
 
+# ---------------------------------------------------------------- histories: composite events (no loop run between actions) + generalised pairing dimension
+# One history = a list of [action, gap].  `gap` = how many event-loop iterations the harness lets pass before the next action:
+# 0 = the next action is issued back-to-back (same loop iteration, nothing the previous action made ready has run yet), 1..3 = that
+# many iterations, "q" = quiescence.  Actions:
+#   S:k:id:ms        waiter k starts waiting for id with timeout ms        C:k   waiter k is cancelled
+#   A:id:c:s:ep:via  advertisement for id (config number c, state number s, endpoint/name variant ep) processed by transport via
+#                    (i = mDNS _hap._tcp -> IpController, c = mDNS _hap._udp -> CoAPController, b = BLE scanner callback)
+#   T:ms             the clock advances to ms                              L     the pairing of the case is loaded (load_pairing)
+#   M:id:v:via       a MALFORMED advertisement naming id (variant v: no / only link-local addresses, no id, non-numeric c#, truncated or
+#                    foreign manufacturer data ...): ignored - no waiter is woken, nothing raises
+#   N:id:v           a BLE encrypted notification for id (v: authentic for a cached characteristic / for an unknown iid / truncated /
+#                    garbage): not an advertisement of the device's presence - no waiter is woken, nothing raises
+#   X:k              the clock advances to the instant waiter k's timeout fires; a following gap-0 group runs in the SAME loop
+#                    iteration right AFTER the timeout callback            Y:k   same, the group runs right BEFORE the timeout callback
+SETTLE = 12      # loop iterations of a "q" gap
+WINDOW = 10      # an outcome has certainly reached the caller this many iterations after it was decided
+BIG = 10 ** 6
+# (mDNS addresses, port, BLE address, BLE local name, bytes of the optional BLE setup hash present)
+EPS = [(["10.0.0.5"], 80, "11:22:33:44:55:00", "dev", 4), (["10.0.0.6"], 80, "11:22:33:44:55:01", "a-much-longer-name", 0),
+       (["10.0.0.5"], 8080, "11:22:33:44:55:00", "d", 4), (["169.254.9.9", "10.0.0.7", "fe80::1"], 80, "11:22:33:44:55:02", None, 2)]
+SYNC = ("S", "A", "C", "L", "M", "N")
+
+
+def ptok(s):
+    return tuple(int(x) if x.lstrip("-").isdigit() else x for x in s.split(":"))
+
+
+def gap_iters(gap):
+    return SETTLE if gap == "q" else int(gap)
+
+
+def expected_micro(events):
+    """The property over a history with composite events.  Returns ({k: set of acceptable outcomes}, {id: [(c, s) advertised]},
+    flat events for the waiter automaton or None when the history has an instant the automaton cannot express (a tie)).
+    A waiter ends with the FIRST of {advertisement for its id processed (or id already discovered when it starts), its own cancel,
+    its timeout}.  Two things the caller itself can still do in the few loop iterations before that outcome has reached it are not
+    the library's business and widen the set: cancelling the waiting task (-> 'cancelled'), and (Y groups only) the timeout timer
+    firing in the very loop iteration in which the advertisement was processed just before it (-> not found at the deadline)."""
+    now, it = 0, 0
+    adv = {}
+    w = {}
+    flat = []
+    expressible = True
+    y_open = False
+
+    def decide(k, outcome, at=None):
+        w[k]["c"].append(outcome)
+        w[k]["it"] = it if at is None else at
+
+    def fire_due():
+        for k, x in w.items():
+            if not x["c"] and x["dl"] <= now:
+                decide(k, f"notfound@{x['dl']}")
+            elif x["c"] and x["c"][0] == f"found@{x['dl']}" and x["dl"] == now and it - x["it"] < WINDOW and f"notfound@{x['dl']}" not in x["c"]:
+                x["c"].append(f"notfound@{x['dl']}")
+
+    def advance(target):
+        nonlocal now, it
+        it += BIG
+        for k, x in w.items():
+            if not x["c"] and x["dl"] < target:
+                decide(k, f"notfound@{x['dl']}", at=it - BIG)
+        now = target
+    for i, (tok, gap) in enumerate(events):
+        e = ptok(tok) if isinstance(tok, str) else tok
+        if e[0] == "S":
+            if e[1] not in w:
+                w[e[1]] = {"id": e[2], "dl": now + e[3], "c": [], "it": 0}
+                if e[2] in adv:
+                    decide(e[1], f"found@{now}")
+                flat.append(f"S:{e[1]}:{e[2]}:{e[3]}")
+        elif e[0] == "A":
+            adv.setdefault(e[1], []).append((e[2], e[3]))
+            for k, x in w.items():
+                if not x["c"] and x["id"] == e[1]:
+                    decide(k, f"found@{now}")
+            flat.append(f"A:{e[1]}")
+        elif e[0] == "C":
+            x = w.get(e[1])
+            if x is not None:
+                if not x["c"]:
+                    decide(e[1], "cancelled")
+                elif x["c"][0] != "cancelled" and it - x["it"] < WINDOW and "cancelled" not in x["c"]:
+                    x["c"].append("cancelled")
+                flat.append(f"C:{e[1]}")
+        elif e[0] == "T":
+            if e[1] > now:
+                advance(e[1])
+                fire_due()
+                flat.append(f"T:{e[1]}")
+        elif e[0] in ("X", "Y"):
+            x = w.get(e[1])
+            if x is not None and x["dl"] > now:
+                advance(x["dl"])
+                if e[0] == "X":
+                    fire_due()
+                    flat.append(f"T:{x['dl']}")
+                else:
+                    y_open = True
+                    expressible = False
+        nxt = events[i + 1][0] if i + 1 < len(events) else None
+        nxt_sync = nxt is not None and (ptok(nxt) if isinstance(nxt, str) else nxt)[0] in SYNC
+        if y_open and (gap != 0 or not nxt_sync):
+            fire_due()
+            y_open = False
+        it += gap_iters(gap)
+    want = {k: (set(x["c"]) if x["c"] else {"pending"}) for k, x in w.items()}
+    if any(len(v) > 1 for v in want.values()):
+        expressible = False
+    return want, adv, (flat if expressible else None)
+
+
+def hist_ble_adv(did, c, s, ep):
+    idb = bytes.fromhex(did.replace(":", ""))
+    _, _, address, name, nhash = EPS[ep]
+    data = bytes([0x06, 0x31, 0x00]) + idb + struct.pack("<HHBB", 5, s & 0xFFFF, c & 0xFF, 2) + b"\x01\x02\x03\x04"[:nhash]
+    try:
+        from bleak.backends.device import BLEDevice
+        from bleak.backends.scanner import AdvertisementData
+        return (BLEDevice(address, name, None),
+                AdvertisementData(local_name=name, manufacturer_data={76: data}, service_data={}, service_uuids=[], rssi=-60, platform_data=((),), tx_power=-127))
+    except Exception:  # noqa: BLE001 - another bleak: the duck-typed stand-ins of the older streams
+        a = MagicMock()
+        a.manufacturer_data = {76: data}
+        a.rssi = -60
+        d = MagicMock()
+        d.name = name
+        d.address = address
+        return d, a
+
+
+def hist_malformed(did, v, via, type_):
+    """(device, advertisement) for BLE / record object for mDNS that the parsers must ignore"""
+    if via == "b":
+        idb = bytes.fromhex(did.replace(":", ""))
+        good = bytes([0x06, 0x31, 0x00]) + idb + struct.pack("<HHBB", 5, 9, 9, 2) + b"\x01\x02\x03\x04"
+        md = [{76: good[:14]}, {76: bytes([0x07]) + good[1:]}, {76: b""}, {77: good}, {76: good[:3]}, {}][v % 6]
+        a = MagicMock()
+        a.manufacturer_data = md
+        a.rssi = -70
+        d = MagicMock()
+        d.name = "dev"
+        d.address = "11:22:33:44:55:09"
+        return d, a
+    props = {"id": did, "c#": "9", "s#": "9", "sf": "0", "ff": "0", "ci": "5", "md": "m"}
+    addrs = ["10.0.0.8"]
+    if v % 6 == 0:
+        addrs = []
+    elif v % 6 == 1:
+        addrs = ["169.254.1.1", "0.0.0.0", "fe80::2", "::"]
+    elif v % 6 == 2:
+        del props["id"]
+    elif v % 6 == 3:
+        props["c#"] = "x"
+    elif v % 6 == 4:
+        props["id"] = None
+    else:
+        props["ci"] = ""
+    return FakeInfo("dev" + did[-2:], addrs, props, type_=type_)
+
+
+_NOTIF = {}
+
+
+def hist_notification(did, v):
+    idb = bytes.fromhex(did.replace(":", ""))
+    if (did, v % 5) not in _NOTIF:
+        from harness.c18 import seal
+        # variants 0 and 1 are authentic under the cached broadcast key (state numbers 7 / 8): they legitimately advance the state number
+        _NOTIF[(did, v % 5)] = [lambda: seal(7, 11, b"\x01", k=bytes(range(32)), aid=idb), lambda: seal(8, 999, b"\x01", k=bytes(range(32)), aid=idb),
+                                lambda: seal(9, 11, b"\x01", k=bytes(range(32)), aid=idb)[:5], lambda: bytes(range(12)), lambda: b""][v % 5]()
+    body = _NOTIF[(did, v % 5)]
+    a = MagicMock()
+    a.manufacturer_data = {76: bytes([0x11, 0x36]) + idb + body}
+    a.rssi = -70
+    d = MagicMock()
+    d.name = "dev"
+    d.address = "11:22:33:44:55:00"
+    return d, a
+
+
+def hist_mdns_info(did, c, s, ep, type_, real, upper_keys):
+    addrs, port = EPS[ep][:2]
+    props = {"id": did, "c#": str(c), "s#": str(s), "sf": "0", "ff": "0", "ci": "5", "md": "m"}
+    if upper_keys:
+        props = {k.upper(): v for k, v in props.items()}
+    if real:
+        # zeroconf's own record object (what the service browser hands to the controller)
+        from zeroconf.asyncio import AsyncServiceInfo
+        packed = [ipaddress.ip_address(a).packed for a in addrs]
+        return AsyncServiceInfo(type_, f"dev{did[-2:]}.{type_}", addresses=packed, port=port,
+                                properties={k.encode(): v.encode() for k, v in props.items()}, weight=0, priority=0)
+    return FakeInfo("dev" + did[-2:], addrs, props, port=port, type_=type_)
+
+
+def pairing_data_for(conn, pid):
+    data = {"AccessoryPairingID": pid, "iOSPairingId": "x", "iOSDeviceLTPK": "00" * 32, "iOSDeviceLTSK": "00" * 32, "AccessoryLTPK": "00" * 32, "Connection": conn}
+    if conn == "BLE":
+        data["AccessoryAddress"] = "11:22:33:44:55:00"
+    else:
+        data.update({"AccessoryIP": "10.0.0.9", "AccessoryIPs": ["10.0.0.9"], "AccessoryPort": 80})
+    return data
+
+
+def hist_cache(case):
+    """the characteristic cache the controller starts with (what a restart finds in storage)"""
+    cache = CharacteristicCacheMemory()
+    spec = case.get("cache")
+    p = case.get("pairing")
+    if spec and p:
+        pid = IDS[7].upper() if p.get("upper") else IDS[7].lower()
+        accs = Accessories.from_list([{"aid": 1, "services": [{"iid": 1000, "type": ServicesTypes.LIGHTBULB, "characteristics": [
+            {"iid": 11, "type": CharacteristicsTypes.ON, "perms": ["pr", "pw", "ev"], "format": "bool", "value": False}]}]}])
+        cache.async_create_or_update_map(pid, spec["c"], accs.serialize(), bytes(range(32)).hex() if spec.get("key") else None, spec.get("s"))
+    return cache
+
+
+@contextlib.contextmanager
+def no_network():
+    """every connection attempt of a loaded pairing is refused / finds no radio: only the network and the radio are mocked"""
+    import aiohomekit.controller.ble.pairing as blep
+    import aiohomekit.controller.coap.connection as coapc
+    import aiohomekit.controller.ip.connection as ipc
+    from bleak.exc import BleakError
+
+    async def refused(*a, **k):
+        raise ConnectionRefusedError(111, "refused (harness)")
+
+    async def unreachable(*a, **k):
+        raise OSError(101, "network unreachable (harness)")
+
+    async def no_radio(*a, **k):
+        raise BleakError("no radio (harness)")
+    with contextlib.ExitStack() as st:
+        st.enter_context(mock.patch.object(ipc.aiohappyeyeballs, "start_connection", refused))
+        st.enter_context(mock.patch.object(coapc.Context, "create_server_context", unreachable))
+        st.enter_context(mock.patch.object(coapc.Context, "create_client_context", unreachable))
+        st.enter_context(mock.patch.object(blep, "establish_connection", no_radio))
+        yield
+
+
+async def run_history(loop, case):
+    """Runs one history through the real controllers.  Returns (outcomes, details, errors, recorded)."""
+    from aiohomekit.controller.coap.controller import CoAPController
+    kind = case["controller"]
+    events = [(ptok(t), g) for t, g in case["events"]]
+    real = case.get("info") == "real"
+    cache = hist_cache(case)
+    trans = {}
+    top = None
+    if kind == "aggregate":
+        top = Controller(async_zeroconf_instance=MagicMock(), char_cache=cache)
+        trans = {"i": IpController(char_cache=cache, zeroconf_instance=MagicMock()), "c": CoAPController(char_cache=cache, zeroconf_instance=MagicMock()), "b": BleController(cache)}
+        for t in trans.values():
+            top.transports[t.transport_type] = t
+        finder, loader = top.async_find, top.load_pairing
+    else:
+        via = {"ip": "i", "coap": "c", "ble": "b"}[kind]
+        ctl = {"i": lambda: IpController(char_cache=cache, zeroconf_instance=MagicMock()), "c": lambda: CoAPController(char_cache=cache, zeroconf_instance=MagicMock()),
+               "b": lambda: BleController(cache)}[via]()
+        trans = {via: ctl}
+        finder, loader = ctl.async_find, ctl.load_pairing
+    t0 = loop.time()
+    tasks, out, details, errors, deadline = {}, {}, {}, [], {}
+    n_adv = 0
+
+    async def waiter(k, did, timeout):
+        try:
+            d = await finder(did, timeout)
+            if d is None:
+                out[k] = "none"
+            else:
+                out[k] = f"found@{round((loop.time() - t0) * 1000)}"
+                details[k] = (d.description.id, d.description.config_num, d.description.state_num)
+        except AccessoryNotFoundError:
+            out[k] = f"notfound@{round((loop.time() - t0) * 1000)}"
+        except asyncio.CancelledError:
+            out[k] = "cancelled"
+            raise
+        except Exception as e:  # noqa: BLE001
+            out[k] = "exc:" + type(e).__name__
+
+    def act(e):
+        nonlocal n_adv
+        if e[0] == "S":
+            if e[1] in tasks:
+                return
+            did = IDS[e[2]]
+            did = did.lower() if e[1] % 2 else did.upper()
+            deadline[e[1]] = loop.time() + e[3] / 1000
+            tasks[e[1]] = asyncio.ensure_future(waiter(e[1], did, e[3] / 1000))
+        elif e[0] == "A":
+            n_adv += 1
+            did = IDS[e[1]]
+            t = trans.get(e[5])
+            if t is None:
+                return
+            try:
+                if e[5] == "b":
+                    t._device_detected(*hist_ble_adv(did.lower(), e[2], e[3], e[4]))
+                else:
+                    t._async_handle_loaded_service_info(hist_mdns_info(did, e[2], e[3], e[4], t.hap_type, real, bool(n_adv % 2)))
+            except Exception as ex:  # noqa: BLE001
+                errors.append(("callback", e[5], type(ex).__name__, repr(ex)[:160]))
+        elif e[0] in ("M", "N"):
+            via = e[3] if e[0] == "M" else "b"
+            t = trans.get(via)
+            if t is None:
+                return
+            try:
+                if via == "b":
+                    t._device_detected(*(hist_malformed(IDS[e[1]].lower(), e[2], "b", None) if e[0] == "M" else hist_notification(IDS[e[1]].lower(), e[2])))
+                else:
+                    t._async_handle_loaded_service_info(hist_malformed(IDS[e[1]], e[2], via, t.hap_type))
+            except Exception as ex:  # noqa: BLE001
+                errors.append(("callback", via, type(ex).__name__, ("malformed advertisement: " if e[0] == "M" else "encrypted notification: ") + repr(ex)[:140]))
+        elif e[0] == "C":
+            t = tasks.get(e[1])
+            if t is not None and not t.done():
+                t.cancel()
+        elif e[0] == "L":
+            p = case.get("pairing")
+            if p:
+                pid = IDS[7].upper() if p.get("upper") else IDS[7].lower()
+                try:
+                    if loader("alias", pairing_data_for(p["conn"], pid)) is None:
+                        errors.append(("load-pairing", p["conn"], "None", "load_pairing returned no pairing"))
+                except Exception as ex:  # noqa: BLE001
+                    errors.append(("load-pairing", p["conn"], type(ex).__name__, repr(ex)[:160]))
+    i = 0
+    while i < len(events):
+        e, gap = events[i]
+        if e[0] == "T":
+            target = t0 + e[1] / 1000
+            if target > loop.time():
+                await asyncio.sleep(target - loop.time())
+        elif e[0] in ("X", "Y"):
+            dl = deadline.get(e[1])
+            if dl is not None:
+                when = math.nextafter(dl, math.inf) if e[0] == "X" else math.nextafter(dl, -math.inf)
+                if dl > loop.time():
+                    group = []
+                    while gap == 0 and i + 1 < len(events) and events[i + 1][0][0] in SYNC:
+                        i += 1
+                        group.append(events[i][0])
+                        gap = events[i][1]
+                    cont = loop.create_future()
+
+                    def in_timer_iteration(group=group, cont=cont):
+                        for g in group:
+                            act(g)
+                        cont.set_result(None)
+                    loop.call_at(when, in_timer_iteration)
+                    await cont
+        else:
+            act(e)
+        for _ in range(gap_iters(gap)):
+            await asyncio.sleep(0)
+        i += 1
+    for _ in range(SETTLE):
+        await asyncio.sleep(0)
+    recorded = {}
+    for v, t in trans.items():
+        for did, d in t.discoveries.items():
+            try:
+                recorded[(v, did)] = (d.description.config_num, d.description.state_num, getattr(d.description, "address", None), getattr(d.description, "port", None))
+            except Exception as ex:  # noqa: BLE001
+                recorded[(v, did)] = ("exc:" + type(ex).__name__,)
+    pending = [k for k, t in tasks.items() if not t.done()]
+    me = asyncio.current_task()
+    for _ in range(3):
+        rest = [t for t in asyncio.all_tasks(loop) if t is not me and not t.done()]
+        if not rest:
+            break
+        for t in rest:
+            t.cancel()
+        await asyncio.wait(rest, timeout=5)
+    for k, t in tasks.items():
+        if k not in out and t.cancelled():
+            out[k] = "cancelled"
+    for k in pending:
+        out[k] = "pending"
+    return out, details, errors, recorded
+
+
+def pclass(case):
+    p = case.get("pairing")
+    if not p or not any(t == "L" for t, _ in case["events"]):
+        return "none"
+    return p["conn"].lower() + ("-cached" if case.get("cache") else "-uncached")
+
+
+def judge_history(ctx, case, res):
+    """implementation-level oracle of the histories stream; returns the outcome line for the waiter automaton (or None)"""
+    out, details, errors, recorded = res
+    kind = case["controller"]
+    want, adv, flat = expected_micro(case["events"])
+    for what, via, exc, text in errors:
+        if what == "callback":
+            ctx.violation(f"callback/{kind}/{pclass(case)}/{exc}", f"{kind}: the {'BLE scanner' if via == 'b' else 'mDNS browser'} callback raised {text} (pairing: {pclass(case)}, cache: {case.get('cache')}) in history {case['events']}", case)
+        else:
+            ctx.violation(f"load-pairing/{kind}/{exc}", f"{kind}: load_pairing({via}) raised/failed: {text} in history {case['events']}", case)
+    for k in sorted(set(out) | set(want)):
+        o = out.get(k)
+        if o is not None and (o.startswith("exc") or o == "none"):
+            ctx.violation(f"waiter/{kind}/{o}", f"waiter {k} ended with {o}", case)
+        elif o not in want.get(k, ()):
+            w0 = sorted(want.get(k, ()))
+            sig = f"waiter/{kind}/" + ("not-woken" if any(x.startswith("found") for x in w0) and not str(o).startswith("found") else "wrong-outcome")
+            ctx.violation(sig, f"{kind}: waiter {k} ended with {o} but the property demands {' or '.join(w0)} (pairing: {pclass(case)}, cache: {case.get('cache')}, history {case['events']})", case)
+            break
+    ids = {}
+    notified = set()    # ids whose state number an authentic encrypted notification may have advanced meanwhile (that is C18's business)
+    for t, _ in case["events"]:
+        e = ptok(t)
+        if e[0] == "S":
+            ids[e[1]] = e[2]
+        elif e[0] == "N" and e[2] % 5 in (0, 1):
+            notified.add(e[1])
+    for k, (did, c, s) in details.items():
+        if did != IDS[ids[k]].lower() or ((c, s) not in adv.get(ids[k], []) and not (ids[k] in notified and c in [x[0] for x in adv.get(ids[k], [])])):
+            ctx.violation(f"waiter/{kind}/wrong-discovery", f"{kind}: waiter {k} for {IDS[ids[k]].lower()} was completed with a discovery for {did} c#={c} s#={s}; advertised (c#, s#): {adv.get(ids[k])}", case)
+    # the last advertisement a transport processed for an id is what its discovery table reports
+    last = {}
+    for t, _ in case["events"]:
+        e = ptok(t)
+        if e[0] == "A" and (kind == "aggregate" or e[5] == {"ip": "i", "coap": "c", "ble": "b"}[kind]):
+            last[(e[5], IDS[e[1]].lower())] = e
+    for key, e in last.items():
+        rec = recorded.get(key)
+        if rec is None:
+            ctx.violation(f"discovery/{kind}/not-recorded", f"{kind}: the advertisement {tok(e)} was processed but transport {key[0]} has no discovery for {key[1]} (history {case['events']})", case)
+        elif (rec[:2] != (e[2], e[3]) and not (e[1] in notified and key[0] == "b" and rec[0] == e[2])) or (key[0] != "b" and rec[2:] != (([a for a in EPS[e[4]][0] if a.startswith("10.")][0]), EPS[e[4]][1])):
+            ctx.violation(f"discovery/{kind}/stale", f"{kind}: after {tok(e)} the discovery of {key[1]} on transport {key[0]} reports {rec} (history {case['events']})", case)
+    if flat is None:
+        return None, None
+    return " ".join(f"{k}={out[k]}" for k in sorted(out)), "wt.run " + " ".join(flat)
+
+
+def gen_composites(ctx, rng):
+    """two / three actions issued with 0..3 loop iterations between them, around two waiters for one id (different timeouts), an
+    optional waiter for another id: cancel, timeout fires (X before / Y after the group), advertisement for either id, new waiter"""
+    hists = []
+    prefixes = [[["S:1:7:5000", "q"], ["S:2:7:9000", "q"]],
+                [["S:1:7:5000", "q"], ["S:2:7:9000", "q"], ["S:3:8:5000", "q"]],
+                [["S:2:7:9000", "q"], ["T:1000", "q"], ["S:1:7:5000", "q"]],
+                [["S:1:7:5000", 0], ["S:2:7:5000", "q"]]]
+    heads = ["C:1", "C:2", "X:1", "Y:1", "A:7", "A:8", "S:3:7:3000"]
+    others = ["C:1", "C:2", "A:7", "A:8", "S:3:7:3000", "S:3:8:3000"]
+    pairs = [(a, b) for a in heads for b in others if (a != b or a[0] == "A") and not (a[0] == "S" and b[0] == "S")]
+    triples = [(a, b, c) for a, b in pairs for c in others if (c not in (a, b) or c[0] == "A") and not (c[0] == "S" and "S" in (a[0], b[0]))]
+    groups = [(g, gaps) for g in pairs for gaps in ((0,), (1,), (2,), (3,), (4,))]
+    tri = [(g, gaps) for g in triples for gaps in itertools.product((0, 1, 2, 3, 4), repeat=2)]
+    groups += rng.sample(tri, min(len(tri), ctx.budget(260, 4000)))
+    for g, gaps in groups:
+        pre = rng.choice(prefixes) if len(g) == 3 else prefixes[len(hists) % len(prefixes)]
+        if any(x.startswith("S:3") for x in g) and any(p[0].startswith("S:3") for p in pre):
+            pre = prefixes[0]
+        ev = [list(x) for x in pre]
+        for j, a in enumerate(g):
+            ev.append([a, gaps[j] if j < len(gaps) else "q"])
+        ev.append(["T:20000", "q"])
+        hists.append(ev)
+    return hists
+
+
+def concretise(ev, kind, rng):
+    """fill in the advertisement contents / transport of the short A:id tokens of a composite history"""
+    out = []
+    for t, g in ev:
+        if t.startswith("A:") and t.count(":") == 1:
+            via = {"ip": "i", "coap": "c", "ble": "b"}.get(kind) or rng.choice("iicb" if rng.random() < 0.5 else "b")
+            t = f"{t}:{rng.randrange(1, 4)}:{rng.randrange(1, 4)}:{rng.randrange(len(EPS))}:{via}"
+        out.append([t, g])
+    return out
+
+
+def pairing_variants(kind, rng):
+    conns = {"ip": ["IP"], "coap": ["CoAP"], "ble": ["BLE"], "aggregate": ["IP", "CoAP", "BLE"]}[kind]
+    return [{"conn": c, "upper": u} for c in conns for u in (True, False)]
+
+
+def gen_pairing_grid(ctx, rng):
+    """the pairing-loaded dimension, systematically: cached c# below / equal / above the advertised one, with / without cached
+    state number and broadcast key, pairing loaded before the first advertisement (no previous description: the state after a
+    restart), between the waiter and the advertisement, or after it (description taken from the discovery), a second advertisement
+    with the same / a changed c#, s#, address, port; a waiter is pending at the first advertisement, a second one starts later"""
+    cases = []
+    base_c, base_s = 3, 4
+    seconds = [(0, 0, 0), (1, 0, 0), (0, 1, 0), (0, 0, 1), (0, 0, 2), (1, 1, 3), (-1, 0, 0)]
+    for kind in ("ip", "coap", "ble", "aggregate"):
+        for p in pairing_variants(kind, rng):
+            via0 = {"IP": "i", "CoAP": "c", "BLE": "b"}[p["conn"]]
+            caches = [None] + [{"c": base_c + dc, "s": s, "key": key} for dc in (-1, 0, 1) for s in (None, base_s, base_s + 3) for key in (False, True)]
+            for cache in caches:
+                for load_at in (0, 1, 2):
+                    for sec in (seconds if ctx.thorough() else rng.sample(seconds, 2)):
+                        if cache is not None and cache["key"] and p["conn"] != "BLE" and rng.random() < 0.7:
+                            continue
+                        ev = [["S:1:7:5000", "q"], [f"A:7:{base_c}:{base_s}:0:{via0}", "q"], ["S:2:7:5000", "q"],
+                              [f"A:7:{base_c + sec[0]}:{base_s + sec[1]}:{sec[2]}:{via0}", "q"], ["S:3:8:5000", "q"], [f"A:8:1:1:1:{via0}", "q"], ["T:20000", "q"]]
+                        if rng.random() < 0.4:
+                            ev.insert(1, [f"M:7:{rng.randrange(6)}:{via0}", rng.choice(["q", 0])])
+                        if via0 == "b" and rng.random() < 0.5:
+                            ev.insert(rng.choice([1, 2, 3]), [f"N:7:{rng.randrange(5)}", rng.choice(["q", 0])])
+                        ev.insert(load_at, ["L", rng.choice(["q", "q", 0, 1])])
+                        if kind == "aggregate" and rng.random() < 0.5:
+                            # the accessory is heard on another transport as well
+                            ev.insert(rng.randrange(1, len(ev) - 1), [f"A:7:{base_c}:{base_s}:0:{rng.choice([v for v in 'icb' if v != via0])}", "q"])
+                        cases.append({"stream": "histories", "family": "pairing-grid", "controller": kind, "pairing": p, "cache": cache,
+                                      "info": rng.choice(["fake", "real"]), "events": ev})
+    return cases
+
+
+def gen_random_histories(ctx, rng, n):
+    cases = []
+    for _ in range(n):
+        kind = rng.choice(["ip", "coap", "ble", "ble", "aggregate", "aggregate"])
+        vias = {"ip": "i", "coap": "c", "ble": "b"}.get(kind)
+        p = rng.choice(pairing_variants(kind, rng)) if rng.random() < 0.75 else None
+        cache = None
+        if p and rng.random() < 0.75:
+            cache = {"c": rng.randrange(1, 5), "s": rng.choice([None, None, 1, 2, 3]), "key": rng.random() < 0.4}
+        ev = []
+        started, loaded, t = set(), False, 0
+        for _ in range(rng.randrange(4, 14)):
+            r = rng.random()
+            gap = rng.choice(["q", "q", "q", 0, 0, 1, 2, 3])
+            if r < 0.25 and len(started) < 3:
+                k = rng.choice([x for x in (1, 2, 3) if x not in started])
+                started.add(k)
+                ev.append([f"S:{k}:{rng.choice([7, 7, 8])}:{rng.choice([1000, 5000, 9000])}", gap])
+            elif r < 0.55:
+                ev.append([f"A:{rng.choice([7, 7, 8])}:{rng.randrange(1, 5)}:{rng.randrange(1, 4)}:{rng.randrange(len(EPS))}:{vias or rng.choice('icb')}", gap])
+            elif r < 0.60:
+                if (vias or "b") == "b" and (kind == "ble" or rng.random() < 0.4) and rng.random() < 0.5:
+                    ev.append([f"N:7:{rng.randrange(5)}", gap])
+                else:
+                    ev.append([f"M:{rng.choice([7, 8])}:{rng.randrange(6)}:{vias or rng.choice('icb')}", gap])
+            elif r < 0.67 and started:
+                ev.append([f"C:{rng.choice(sorted(started))}", gap])
+            elif r < 0.75 and started:
+                ev.append([f"{rng.choice('XXY')}:{rng.choice(sorted(started))}", rng.choice([0, 0, 1, "q"])])
+            elif r < 0.85 and p and not loaded:
+                loaded = True
+                ev.append(["L", gap])
+            else:
+                t += rng.choice([500, 1000, 4000, 4500])
+                ev.append([f"T:{t}", "q"])
+        if not started:
+            continue
+        if p and not loaded:
+            ev.insert(rng.randrange(0, len(ev)), ["L", "q"])
+        cases.append({"stream": "histories", "family": "random", "controller": kind, "pairing": p, "cache": cache, "info": rng.choice(["fake", "real"]), "events": ev})
+    return cases
+
+
+def history_streams(ctx, driver, rng):
+    cases = []
+    comps = gen_composites(ctx, rng)
+    for kind in ("ip", "coap", "ble", "aggregate"):
+        for ev in comps:
+            if kind == "coap" and rng.random() < 0.6:
+                continue    # same ZeroconfController code as ip; the record type differs
+            p = rng.choice(pairing_variants(kind, rng)) if rng.random() < 0.3 else None
+            cev = concretise(ev, kind, rng)
+            if p:
+                cev.insert(rng.randrange(0, 3), ["L", "q"])
+            cases.append({"stream": "histories", "family": "composite", "controller": kind, "pairing": p,
+                          "cache": ({"c": rng.randrange(1, 4), "s": rng.choice([None, 2]), "key": False} if p and rng.random() < 0.6 else None),
+                          "info": rng.choice(["fake", "real"]), "events": cev})
+    cases += gen_pairing_grid(ctx, rng)
+    cases += gen_random_histories(ctx, rng, ctx.budget(1200, 20000))
+    loop = simnet.VLoop()
+    asyncio.set_event_loop(loop)
+    mcases, outs, lines = [], [], []
+    try:
+        with no_network():
+            for case in cases:
+                # every history starts on a whole second of the virtual clock (deadlines are then exact binary fractions)
+                loop._vt = float(int(loop._vt) + 2)
+                res = loop.run_until_complete(run_history(loop, case))
+                ctx.evaluations += 1
+                ctx.nontrivial.add(("hist", case["controller"], pclass(case), str(case.get("cache")), tuple(tuple(x) for x in case["events"])))
+                ctx.dist[f"histories:{case['family']}:{case['controller']}"] += 1
+                ctx.dist[f"histories:pairing:{pclass(case)}"] += 1
+                o, line = judge_history(ctx, case, res)
+                if o is not None:
+                    mcases.append(case)
+                    outs.append(o)
+                    lines.append(line)
+                else:
+                    ctx.dist["histories:tie-or-Y(impl-oracle-only)"] += 1
+    finally:
+        loop.close()
+    ctx.sample(cases[0])
+    ctx.sample(cases[-1])
+    compare_with_model(ctx, "histories", mcases, outs, lines, driver)
+
+
+# ---------------------------------------------------------------- restart: pairings from storage + zeroconf's own record cache and browser callback
+def restart_expected(case):
+    """harness bookkeeping of what the accessory announced and when the controller can know it (resolve debounce 0.5 s, an
+    unanswered cache lookup costs one query round trip of 0.1 s)"""
+    lag = 500 + (100 if case["resolve"] == "miss" else 0)   # "miss": the first announcement is not in the record cache yet when the debounce ends
+    first = 0 if case["precached"] else 1000 + lag
+    want = {1: f"found@{first}", 2: "found@5000", 3: "notfound@2000"}
+    vals = [(3, 4, 0)]
+    if case.get("update"):
+        u = case["update"]
+        vals.append((3 + u[0], 4 + u[1], u[2]))
+    return want, vals
+
+
+async def run_restart(loop, case, errors):
+    import aiohomekit.zeroconf as zcmod
+    from aiohomekit.controller.coap.controller import CoAPController
+    from zeroconf import DNSCache, ServiceStateChange, SignalRegistrationInterface
+    from zeroconf.asyncio import AsyncServiceInfo
+    t0 = loop.time()
+    answers = {}
+
+    class BrowserStub:
+        types = ["_hap._tcp.local.", "_hap._udp.local."]
+
+        def __init__(self):
+            self.service_state_changed = SignalRegistrationInterface([])
+
+    class Info(AsyncServiceInfo):
+        async def async_request(self, zc, timeout, *a, **k):
+            # the network: one query, answered 0.1 s later with whatever the accessory announces at that time
+            await asyncio.sleep(0.1)
+            recs = answers.pop(self.name, None)
+            if recs:
+                zc.cache.async_add_records(recs)
+            return self.load_from_cache(zc)
+    azc = MagicMock(name="AsyncZeroconf")
+    azc.zeroconf = MagicMock(name="Zeroconf")
+    azc.zeroconf.cache = DNSCache()
+    azc.zeroconf.listeners = [BrowserStub()]
+    cls = IpController if case["controller"] == "ip" else CoAPController
+    hap = cls.hap_type
+    out, details, tasks = {}, {}, {}
+
+    def records(c, s, ep):
+        i = hist_mdns_info(IDS[7], c, s, ep, hap, True, False)
+        return i.name, [*i.dns_addresses(), i.dns_pointer(), i.dns_service(), i.dns_text()]
+
+    async def waiter(k, did, timeout):
+        try:
+            d = await ctl.async_find(did, timeout)
+            out[k] = f"found@{round((loop.time() - t0) * 1000)}"
+            details[k] = (d.description.id, d.description.config_num, d.description.state_num)
+        except AccessoryNotFoundError:
+            out[k] = f"notfound@{round((loop.time() - t0) * 1000)}"
+        except Exception as e:  # noqa: BLE001
+            out[k] = "exc:" + type(e).__name__
+
+    def announce(c, s, ep, change, may_miss=False):
+        name, recs = records(c, s, ep)
+        if may_miss and case["resolve"] == "miss" and not case["precached"]:
+            answers[name] = recs
+        else:
+            azc.zeroconf.cache.async_add_records(recs)
+        try:
+            ctl._handle_service(azc.zeroconf, hap, name, change)
+        except Exception as ex:  # noqa: BLE001
+            errors.append(("callback", "browser", type(ex).__name__, repr(ex)[:160]))
+
+    def load():
+        p = case["pairing"]
+        pid = IDS[7].upper() if p.get("upper") else IDS[7].lower()
+        try:
+            ctl.load_pairing("alias", pairing_data_for("IP" if case["controller"] == "ip" else "CoAP", pid))
+        except Exception as ex:  # noqa: BLE001
+            errors.append(("load-pairing", case["controller"], type(ex).__name__, repr(ex)[:160]))
+    with mock.patch.object(zcmod, "AsyncServiceBrowser", BrowserStub), mock.patch.object(zcmod, "AsyncServiceInfo", Info):
+        ctl = cls(char_cache=hist_cache({"cache": case.get("cache"), "pairing": case.get("pairing")}), zeroconf_instance=azc)
+        if case["precached"]:
+            azc.zeroconf.cache.async_add_records(records(3, 4, 0)[1])
+        if case.get("pairing") and case["pairing"]["when"] == "before":
+            load()
+        try:
+            await ctl.async_start()
+        except Exception as ex:  # noqa: BLE001
+            errors.append(("callback", "async_start", type(ex).__name__, repr(ex)[:160]))
+        if case.get("pairing") and case["pairing"]["when"] == "after":
+            load()
+        tasks[1] = asyncio.ensure_future(waiter(1, IDS[7], 30))
+        tasks[3] = asyncio.ensure_future(waiter(3, IDS[8], 2))
+        await asyncio.sleep(1)
+        announce(3, 4, 0, ServiceStateChange.Updated if case["precached"] else ServiceStateChange.Added, may_miss=True)
+        await asyncio.sleep(2)
+        if case.get("update"):
+            u = case["update"]
+            announce(3 + u[0], 4 + u[1], u[2], ServiceStateChange.Updated)
+        await asyncio.sleep(2)
+        tasks[2] = asyncio.ensure_future(waiter(2, IDS[7].lower(), 5))
+        await asyncio.sleep(1)
+        d = ctl.discoveries.get(IDS[7].lower())
+        recorded = None if d is None else (d.description.config_num, d.description.state_num, d.description.address, d.description.port)
+        for k, t in tasks.items():
+            if not t.done():
+                out[k] = "pending"
+        try:
+            await ctl.async_stop()
+        except Exception as ex:  # noqa: BLE001
+            errors.append(("callback", "async_stop", type(ex).__name__, repr(ex)[:160]))
+        me = asyncio.current_task()
+        for _ in range(3):
+            rest = [t for t in asyncio.all_tasks(loop) if t is not me and not t.done()]
+            if not rest:
+                break
+            for t in rest:
+                t.cancel()
+            await asyncio.wait(rest, timeout=5)
+    return out, details, recorded
+
+
+def judge_restart(ctx, case, res, errors):
+    out, details, recorded = res
+    kind = case["controller"]
+    want, vals = restart_expected(case)
+    label = f"pairing: {case.get('pairing')}, cache: {case.get('cache')}, records cached before start: {case['precached']}, resolve: {case['resolve']}, update: {case.get('update')}"
+    for what, via, exc, text in errors:
+        if what == "callback":
+            ctx.violation(f"callback/restart-{kind}/{exc}", f"{kind}: the mDNS browser callback chain ({via}) raised {text} ({label})", case)
+        else:
+            ctx.violation(f"load-pairing/restart-{kind}/{exc}", f"{kind}: load_pairing raised {text} ({label})", case)
+    for k in sorted(want):
+        if out.get(k) != want[k]:
+            sig = f"waiter/restart-{kind}/" + ("not-woken" if want[k].startswith("found") else "wrong-outcome")
+            ctx.violation(sig, f"{kind}: waiter {k} ended with {out.get(k)} but the property demands {want[k]} ({label})", case)
+            break
+    for k, (did, c, s) in details.items():
+        if did != IDS[7].lower() or (c, s) not in [v[:2] for v in vals]:
+            ctx.violation(f"waiter/restart-{kind}/wrong-discovery", f"{kind}: waiter {k} completed with a discovery for {did} c#={c} s#={s}, announced {vals} ({label})", case)
+    c, s, ep = vals[-1]
+    exp = (c, s, [a for a in EPS[ep][0] if a.startswith("10.")][0], EPS[ep][1])
+    if recorded is None:
+        ctx.violation(f"discovery/restart-{kind}/not-recorded", f"{kind}: no discovery recorded for the announced accessory ({label})", case)
+    elif recorded != exp:
+        ctx.violation(f"discovery/restart-{kind}/stale", f"{kind}: the discovery reports {recorded}, the accessory last announced {exp} ({label})", case)
+
+
+def run_restart_case(ctx, loop, case):
+    errors = []
+
+    def on_loop_error(lp, context):
+        ex = context.get("exception")
+        errors.append(("callback", "loop callback", type(ex).__name__ if ex is not None else "error", (repr(ex) if ex is not None else str(context.get("message")))[:160]))
+    loop._vt = float(int(loop._vt) + 2)
+    loop.set_exception_handler(on_loop_error)
+    try:
+        res = loop.run_until_complete(run_restart(loop, case, errors))
+    finally:
+        loop.set_exception_handler(None)
+    judge_restart(ctx, case, res, errors)
+
+
+def restart_streams(ctx, rng):
+    cases = []
+    for kind in ("ip", "coap"):
+        pairings = [None] + [{"when": w, "upper": u} for w in ("before", "after") for u in (True, False)]
+        for p in pairings:
+            caches = [None] if p is None else [None] + [{"c": 3 + dc, "s": s, "key": False} for dc in (-1, 0, 1) for s in (None, 4)]
+            for cache in caches:
+                for precached in (False, True):
+                    for resolve in ("hit", "miss"):
+                        for update in (None, [1, 0, 0], [0, 1, 0], [0, 0, 1], [0, 0, 2], [1, 1, 3]):
+                            cases.append({"stream": "restart", "controller": kind, "pairing": p, "cache": cache, "precached": precached, "resolve": resolve, "update": update})
+    n = ctx.budget(450, len(cases))
+    if len(cases) > n:
+        unpaired = [c for c in cases if c["pairing"] is None]
+        cases = unpaired + rng.sample([c for c in cases if c["pairing"] is not None], n)
+    loop = simnet.VLoop()
+    asyncio.set_event_loop(loop)
+    try:
+        with no_network():
+            for case in cases:
+                run_restart_case(ctx, loop, case)
+                ctx.evaluations += 1
+                ctx.nontrivial.add(("restart", str(case)))
+                ctx.dist[f"restart:{case['controller']}:{'paired-' + case['pairing']['when'] if case['pairing'] else 'unpaired'}"] += 1
+    finally:
+        loop.close()
+    ctx.sample(cases[0])
+
+
 def replay(ctx, driver, c):
-    return None
+    n = len(ctx.violations)
+    stream = c.get("stream")
+    if stream == "waiter-micro":
+        from harness.c19_micro import replay_micro
+        r = replay_micro(ctx, driver, c)
+        return [r] if r else []
+    if stream not in ("histories", "restart", "waiters", "browser"):
+        return None
+    loop = simnet.VLoop()
+    asyncio.set_event_loop(loop)
+    try:
+        with no_network():
+            if stream == "histories":
+                loop._vt = 2.0
+                judge_history(ctx, c, loop.run_until_complete(run_history(loop, c)))
+            elif stream == "restart":
+                run_restart_case(ctx, loop, c)
+            elif stream == "waiters":
+                evs = [ptok(t) for t in c["events"]]
+                out, errors = loop.run_until_complete(run_schedule(loop, c["controller"], evs, c.get("pairing", "none")))
+                if errors:
+                    ctx.violation(f"callback/{c['controller']}/{c.get('pairing')}/{errors[0]}", f"detection callback raised {errors[0]}", c)
+                if out != expected(evs):
+                    ctx.violation(f"waiter/{c['controller']}/wrong-outcome", f"outcomes {out}, the property demands {expected(evs)}", c)
+            else:
+                evs = [ptok(t) for t in c["events"]]
+                out, errors = loop.run_until_complete(run_browser_schedule(loop, evs))
+                want = browser_expected(evs)[0]
+                if errors:
+                    ctx.violation(f"callback/browser/{errors[0]}", f"the browser callback raised {errors[0]}", c)
+                if out != want:
+                    ctx.violation("waiter/browser/wrong-outcome", f"outcomes {out}, the property demands {want}", c)
+    finally:
+        loop.close()
+    return [v["signature"] + ": " + v["what"] for v in ctx.violations[n:]]
